@@ -241,3 +241,35 @@ func H_K1_KeeperJoin_AllAssets() { keeperJoin(false) }
 //vrf:cover join-ok
 //vrf:bound as K1 with one offered coin
 func H_K1_KeeperJoin_SingleAsset() { keeperJoin(true) }
+
+// ---- single-asset join of a constant-product pool through the real Pool.JoinPool ----
+
+// contract of powerApproximation (the share ledgers do not depend on its value): any result in [1, base]
+func SumPowAny(base, exp sdkmath.LegacyDec) (sdkmath.LegacyDec, error) {
+	r := vrf.Dec("powResult")
+	vrf.Assume(r.GTE(sdkmath.LegacyOneDec()))
+	vrf.Assume(r.LTE(base))
+	return r, nil
+}
+
+// single-asset join: the share ledgers (pool total, supply, committed, custody) agree afterwards
+//
+//vrf:summary github.com/elys-network/elys/x/amm/types.powerApproximation => SumPowAny
+//vrf:cover join-ok
+//vrf:bound 1 constant-product pool x 2 assets, one offered coin of less than the reserve (balance ratio in [1, 2)); reserves, supply, amount symbolic; powerApproximation under contract (any value in [1, base])
+//vrf:assert-ms 120000
+func H_JoinPoolNoSwap_SingleAsset() {
+	s := setup(true)
+	mu := vrf.Int("maxUsdc")
+	vrf.Assume(mu.IsPositive())
+	vrf.Assume(mu.LT(s.bu))
+	vrf.Assume(s.bu.LTE(sdkmath.NewIntWithDecimal(1, 30)))
+	vrf.Assume(s.T.LTE(sdkmath.NewIntWithDecimal(1, 30)))
+	_, shares, err := s.env.Amm.JoinPoolNoSwap(s.env.Ctx, joiner, 1, sdkmath.NewInt(1), sdk.Coins{{Denom: usdc, Amount: mu}})
+	if err != nil {
+		return
+	}
+	vrf.Cover("join-ok")
+	vrf.Assert(s.env.W.SupplyOf(share).Equal(s.T.Add(shares)), "C02 single-asset join: exactly the returned shares are minted")
+	s.check("single-asset join")
+}
